@@ -3252,6 +3252,7 @@ def _check_entry_for_changes(
     root_path: bytes,
     filter_blob_callback: Callable[[Blob, bytes], Blob] | None = None,
     trust_ctime: bool = True,
+    honor_filemode: bool = False,
 ) -> bytes | None:
     """Check a single index entry for changes.
 
@@ -3261,6 +3262,9 @@ def _check_entry_for_changes(
       root_path: Root filesystem path
       filter_blob_callback: Optional callback to filter blobs
       trust_ctime: If True, use ctime for change detection (default: True)
+      honor_filemode: If True, a changed executable bit (or a change between
+        regular file and symlink) counts as a change (core.filemode);
+        off by default, as before
     Returns: tree_path if changed, None otherwise
     """
     if isinstance(entry, ConflictedIndexEntry):
@@ -3299,6 +3303,9 @@ def _check_entry_for_changes(
     else:
         if blob.id != entry.sha:
             return tree_path
+        if honor_filemode and cleanup_mode(st.st_mode) != cleanup_mode(entry.mode):
+            # same content, but chmod +x / -x (or file <-> symlink)
+            return tree_path
     return None
 
 
@@ -3309,6 +3316,7 @@ def get_unstaged_changes(
     preload_index: bool = False,
     trust_ctime: bool = True,
     max_stat: int | None = None,
+    honor_filemode: bool = False,
 ) -> Generator[bytes, None, None]:
     """Walk through an index and check for differences against working tree.
 
@@ -3320,6 +3328,8 @@ def get_unstaged_changes(
       trust_ctime: If True, use ctime for change detection (default: True)
       max_stat: If set, limit the number of stat operations performed.
         When the limit is reached, remaining files are assumed unchanged.
+      honor_filemode: If True, report files whose executable bit differs
+        from the index (core.filemode); off by default, as before
     Returns: iterator over paths with unstaged changes
     """
     # For each entry in the index check the sha1 & ensure not staged
@@ -3358,6 +3368,7 @@ def get_unstaged_changes(
                         root_path,
                         filter_blob_callback,
                         trust_ctime,
+                        honor_filemode,
                     )
                     for tree_path, entry in entries
                 ]
@@ -3374,7 +3385,12 @@ def get_unstaged_changes(
             if max_stat is not None and stat_count >= max_stat:
                 return
             result = _check_entry_for_changes(
-                tree_path, entry, root_path, filter_blob_callback, trust_ctime
+                tree_path,
+                entry,
+                root_path,
+                filter_blob_callback,
+                trust_ctime,
+                honor_filemode,
             )
             stat_count += 1
             if result is not None:
